@@ -1028,6 +1028,9 @@ fn evaluate_scalar_func(
 
             let result: StringArray = (0..str_arr.len())
                 .map(|i| {
+                    if str_arr.is_null(i) {
+                        return None;
+                    }
                     let s = str_arr.value(i);
                     let start = get_int_value(start_arr, i).unwrap_or(1) as usize;
                     let start = start.saturating_sub(1); // SQL is 1-indexed
